@@ -158,7 +158,13 @@ namespace fastscapelib
             }
 
             bool single_flow = m_out_flowdir == flow_direction::single ? true : false;
-            m_graph_snapshot_single_flow.insert({ snapshot_name, single_flow });
+            // the same snapshot (name) may be saved at several places of the sequence: its
+            // graph must be able to hold any of the saved states
+            auto res = m_graph_snapshot_single_flow.insert({ snapshot_name, single_flow });
+            if (!res.second)
+            {
+                res.first->second = res.first->second && single_flow;
+            }
         }
         if (snapshot.save_elevation())
         {
